@@ -258,6 +258,7 @@ Leaf(pr, env, t, vn) ==      \* vn: library name of the test function ("v"; "u" 
     [] t = "g" -> FieldVec(env, "g", d)   [] t = "x" -> FieldVec(env, "geo", d)
     [] t = "Hu" -> PHessBF(pr, env, "u")  [] t = "Hv" -> PHessBF(pr, env, vn)
     [] t = "A" -> FieldMat(env, "A", d)   [] t = "J" -> Jac(pr, env)
+    [] t = "B" -> [r \in 1..(d + 1) |-> [c \in 1..d |-> env.inp["B"].v[(r - 1) * d + c]]]
     [] t = "Gg" -> [i \in 1..d |-> FieldGrad(pr, env, "g", i - 1)]
     [] t = "Ainv" -> InverseM(FieldMat(env, "A", d))  [] t = "Jinv" -> JacInv(pr, env)
 
